@@ -2,6 +2,8 @@ SPECIFICATION Spec
 CONSTANTS T = 9
  P = 2
  F = 1
+ Guarded = TRUE
+ Kinds = {"exception"}
  Serial = FALSE
  FaultSets <- UpToTwoFaults
 INVARIANT ScheduleIndependent
